@@ -13,7 +13,7 @@ EXTENDS Markup, Json, IOUtils, TLCExt
 
 Traces == JsonDeserialize(IOEnv.TRACE_FILE)
 Has(r, f) == f \in DOMAIN r
-Inserting == {"wrap_offset", "wrap_pattern", "mark_occurrence", "mark_position", "mark_range", "mark_content", "mark_element", "mark_first_child"}
+Inserting == {"wrap_offset", "wrap_pattern", "mark_occurrence", "mark_position", "mark_range", "mark_content", "mark_element", "mark_first_child", "move_end"}
 
 (* calls harvested from the repository's own tests: the arguments are not translated, only the class of the call  *)
 (* is known - the clauses of C09 / C05 that are stated on the observation alone still apply                        *)
